@@ -96,17 +96,17 @@ func conclude(p *Prog, prop, tier, outDir, verifDir string, obs []Ob, ran []stri
 		"distinct_nontrivial": nontrivial,
 		"rule": "Obligations are the rule instances enumerated from the role-resolved program (all of them: the instance space is finite). " +
 			"An obligation counts as non-trivial when discharging it needed a dominance, path or data-flow query across at least two basic blocks or one call edge; table comparisons do not count. Distinct = distinct rule/instance keys.",
-		"samples":             samples,
-		"exhaustive":          true,
-		"rules_run":           ran,
-		"instances_per_rule":  perRule,
-		"packages":            p.Stats.Packages,
-		"functions":           p.Stats.Functions,
-		"call_sites":          p.Stats.CallSites,
-		"callgraph_nodes":     p.Stats.CGNodes,
-		"configs":             []string{"linux/amd64 -tags verif"},
+		"samples":                samples,
+		"exhaustive":             true,
+		"rules_run":              ran,
+		"instances_per_rule":     perRule,
+		"packages":               p.Stats.Packages,
+		"functions":              p.Stats.Functions,
+		"call_sites":             p.Stats.CallSites,
+		"callgraph_nodes":        p.Stats.CGNodes,
+		"configs":                []string{"linux/amd64 -tags verif"},
 		"known_findings_matched": knownMatched,
-		"violations":          viol,
+		"violations":             viol,
 	}
 	regress := 0
 	for k, v := range extra {
@@ -129,7 +129,7 @@ func conclude(p *Prog, prop, tier, outDir, verifDir string, obs []Ob, ran []stri
 			cov["violations"] = viol
 		}
 		regress, _ = extra["checker_regressions"].(int)
-		cov["evaluations"] = len(mine) * (1 + len(extra["variants"].([]variantResult))) + extra["mutants_generated"].(int)
+		cov["evaluations"] = len(mine)*(1+len(extra["variants"].([]variantResult))) + extra["mutants_generated"].(int)
 	}
 	ev := Evidence{
 		PropertyID: prop, Tier: tier, Seed: seedFromEnv(), Level: "other", Coverage: cov,
@@ -145,6 +145,9 @@ func conclude(p *Prog, prop, tier, outDir, verifDir string, obs []Ob, ran []stri
 
 	for _, o := range mine {
 		if o.Status != Discharged {
+			if _, isKnown := known[o.key()]; isKnown {
+				continue // printed above as KNOWN-FINDING
+			}
 			fmt.Println(diag(o))
 		}
 	}
